@@ -244,8 +244,9 @@ def record_traces(me, rng, n_rounds, maxn):
     """drive the metric functions on random lattice inputs with the recorder on; return TLC events"""
     U = 0.125
     tr = me.transcription
+    tv = me.transcription_velocity
     fns = [me.util._bipartite_match, me.util.match_events, tr.match_notes, tr.match_note_onsets,
-           tr.match_note_offsets]
+           tr.match_note_offsets, tv.match_notes]
     out = []
     rec = Recorder(fns)
 
@@ -288,12 +289,36 @@ def record_traces(me, rng, n_rounds, maxn):
             if kw["offset_ratio"]:
                 tr.offset_precision_recall_f1(ri, ei, offset_ratio=kw["offset_ratio"],
                                               offset_min_tolerance=kw["offset_min_tolerance"], strict=kw["strict"])
+            # velocity-aware matching: integer / half-integer velocities (the trace specification works in exact integers)
+            vu = rng.choice([1, 2])
+            rvel = np.array([rng.randint(0, 12) / float(vu) for _ in rp])
+            evel = np.array([rng.randint(0, 12) / float(vu) for _ in epp])
+            tv.precision_recall_f1_overlap(ri, rp, rvel, ei, epp, evel, pitch_tolerance=50.0,
+                                           velocity_tolerance=rng.choice([0.05, 0.1, 0.25, 0.5]), **kw)
     tid = 0
+    last_inner = None
     for e in rec.events:
         a = e["args"]
         if "ret" not in e:
             continue
         tid += 1
+        if e["fn"] == "transcription.match_notes":
+            last_inner = (e["depth"], [[int(i) + 1, int(j) + 1] for i, j in e["ret"]])
+        if e["fn"] == "transcription_velocity.match_notes":
+            # the note matching obtained by the nested call (recorded just before, one level deeper)
+            if last_inner is None or last_inner[0] != e["depth"] + 1:
+                raise Machinery("velocity event without its nested note matching")
+            inner = last_inner[1]
+            from fractions import Fraction
+            tol = Fraction(a["velocity_tolerance"]).limit_denominator(100)
+            allv = list(a["ref_velocities"]) + list(a["est_velocities"])
+            vu = 1 if all(float(v).is_integer() for v in allv) else 2
+            if len(inner) <= 5:
+                out.append({"tid": tid, "kind": "velocity", "inner": inner, "m": [[int(i) + 1, int(j) + 1] for i, j in e["ret"]],
+                            "rv": [int(round(v * vu)) for v in a["ref_velocities"]], "evl": [int(round(v * vu)) for v in a["est_velocities"]],
+                            "tol": [tol.numerator, tol.denominator], "u": vu, "nl": len(a["ref_velocities"]), "nr": len(a["est_velocities"]),
+                            "count": len(e["ret"])})
+            continue
         if e["fn"] == "util._bipartite_match":
             g = a["graph"]
             ls = sorted({int(u) for u in g})
@@ -401,10 +426,10 @@ def run(tier, seed):
         e = byid[rj["tid"]]
         fn = {"graph": "util._bipartite_match", "algo": "util._bipartite_match", "events": "util.match_events", "chroma": "util.match_events[chroma]",
               "notes": "transcription.match_notes", "onsets": "transcription.match_note_onsets",
-              "offsets": "transcription.match_note_offsets"}[e["kind"]]
+              "offsets": "transcription.match_note_offsets", "velocity": "transcription_velocity.match_notes"}[e["kind"]]
         rep.violation(fn, rj["clause"], {"trace_event": e})
     for e in events:
-        ev.case(("t", e["kind"], e.get("e") or e.get("ref"), e.get("est"), e["m"]), nontrivial=len(e["m"]) >= 2)
+        ev.case(("t", e["kind"], e.get("e") or e.get("ref") or e.get("inner"), e.get("est") or e.get("evl"), e["m"]), nontrivial=len(e["m"]) >= 2)
     ev.sample({"model": "Trace_C05", "event": next((e for e in events if len(e["m"]) >= 3), events[0])})
 
     ev.cov["rule"] = ("TLC enumerates all bipartite graphs / lattice event, chroma and note lists with all parameter "
